@@ -200,3 +200,5 @@ package check
 //@   like functype::checkgroup.CheckFunc
 //@   requires wfe(e) && tuple != nil && subjectSet != nil
 //@   ensures[C03] err-propagates: faulted && !old(faulted) ==> lastsent(resultCh).Err != nil || lastsent(resultCh).Membership == checkgroup.IsMember
+//@   loop 1 invariant faulted == old(faulted) && !gerr(g)
+//@   loop 2 invariant !gerr(g)
